@@ -15,7 +15,7 @@ try:
     for c in man["checks"]:
         spec = importlib.import_module("props." + c["property_id"].lower()).SPEC
         import gen_lean
-        gen_lean.run(["grid", "anchors", "orbits", "cores", "attrs", "links3"])
+        gen_lean.run(["grid", "anchors", "orbits", "cores", "attrs", "links3", "sews2"])
         targets += spec["lean_modules"]
 except Exception as e:  # noqa: BLE001
     print("setup: could not read the manifest/specs:", e)
